@@ -69,5 +69,5 @@ func (f *Rem) Call(s *slip.Scope, args slip.List, depth int) (result slip.Object
 	case slip.Complex:
 		slip.TypePanic(s, depth, "number", num, "real")
 	}
-	return
+	return canonicalNumber(result)
 }
